@@ -84,7 +84,7 @@ def wrapFile (w : World) (p : Path) : Option (Option StaticView) :=
     | some f =>
       let size := f.content.size
       let plainView (rd : Nat → Nat → Bytes) : StaticView :=
-        { size := size, mtime := f.mtime, read := rd, seekOk := fun _ => true }
+        { size := size, mtime := f.mtime, read := rd, seekOk := fun off => off ≤ osSeekMax }
       let decrypting (key : Bytes) : Option (Nat → Nat → Bytes) :=
         (Crypt.parseTable (fileRd f)).map (fun regs =>
           Crypt.readDec (Crypt.aesSector key) (Crypt.gaps regs) (fileRd f) size 0)
